@@ -217,7 +217,10 @@ def emit_operands(T, namespace, path, note):
     opv = {}
     e = hdr["enum_by_name"]["Op"]
     opv = dict(e["decl"])
-    for o in ("Constant", "SpecConstant", "Switch", "TypeInt", "TypeFloat", "SpecConstantOp", "ExtInstImport", "ExtInst"):
+    for o in ("Constant", "SpecConstant", "Switch", "TypeInt", "TypeFloat", "SpecConstantOp", "ExtInstImport", "ExtInst",
+              "Capability", "Extension", "MemoryModel", "EntryPoint", "ExecutionMode", "ExecutionModeId", "String",
+              "SourceExtension", "Source", "SourceContinued", "Name", "MemberName", "ModuleProcessed", "Variable", "Undef",
+              "Function", "FunctionEnd", "FunctionParameter", "Label", "Line", "NoLine", "Return", "ReturnValue", "Nop"):
         f.raw(f"def op_{o} : Nat := {opv[o]}")
 
     def elem(item, v, m):
